@@ -90,7 +90,9 @@ func outputTupleDir(v rel.Value, dir string, fs afero.Fs, dryRun bool) error {
 	if err != nil {
 		return err
 	}
-	if _, err := fs.Stat(dir); os.IsNotExist(err) {
+	if info, err := fs.Stat(dir); err == nil && !info.IsDir() {
+		return fmt.Errorf("dir output: %s exists and is not a directory", dir)
+	} else if os.IsNotExist(err) {
 		// The dry run only validates; it must leave the filesystem untouched.
 		if !dryRun {
 			if err := fs.Mkdir(dir, 0755); err != nil {
